@@ -44,7 +44,7 @@ func Load(repo string, patterns []string, specFiles []string) (*Program, error) 
 	if nerr > 0 {
 		return nil, fmt.Errorf("%d load errors", nerr)
 	}
-	prog, spkgs := ssautil.AllPackages(pkgs, ssa.BuilderMode(0))
+	prog, spkgs := ssautil.AllPackages(pkgs, ssa.GlobalDebug)
 	prog.Build()
 	P := &Program{prog: prog, pkgs: map[string]*ssa.Package{}, tpkgs: map[string]*types.Package{}, funcs: map[string]*ssa.Function{}, cs: NewContractSet(), repo: repo}
 	for i, sp := range spkgs {
